@@ -66,6 +66,8 @@ class G:
         if not any(i["type"] == "number" for i in inputs):
             inputs[0]["type"] = "number"
         m = {"name": "model%d" % index, "shape": shape, "inputs": inputs, "bkms": [], "decisions": [], "services": []}
+        if shape == "typed-service":
+            return self._typed_service_model(m)
         # knowledge models
         n_bkm = {"bkm-chain": 3, "plain": r.choice([0, 1]), "diamond": r.choice([0, 1]), "mixed": r.choice([1, 2, 3])}.get(shape, r.choice([0, 1, 2]))
         for k in range(1, n_bkm + 1):
@@ -149,6 +151,8 @@ class G:
                         e = ("add", e, r.choice(extra_nums))
                     d["expr"] = e
                     result_type[name] = "number"
+                if not _calls_in(d["expr"]) and _names(d["expr"]) <= {i["name"] for i in inputs} and r.random() < 0.6:
+                    d["type_ref"] = result_type[name]  # a typed output variable (no invocation inside: the value is of that type or null)
             elif kind == "context":
                 d["entries"] = [("ea", self.num_expr(nums, 2, calls)), ("eb", self.num_expr(nums + ["ea"], 1)), ("ec", self.str_expr(strs, 1))]
                 more = []
@@ -221,15 +225,55 @@ class G:
                 enc = [x for x in self.closure(m, out, stop=input_decisions) if x not in out and x not in input_decisions]
                 needed_inputs = sorted({i for x in out + enc for i in self._dec(m, x)["requires_inputs"]})
                 s = {"name": "Sv%d" % sk, "inputs": needed_inputs, "input_decisions": input_decisions, "encapsulated": enc, "outputs": out}
+                od = self._dec(m, out[0])
+                if len(out) == 1 and od.get("type_ref") and r.random() < 0.7:
+                    s["type_ref"] = od["type_ref"]  # the type of the service's own result, not of its parameters
                 m["services"].append(s)
                 if shape in ("service-and-direct", "mixed") and sk == 1:
                     # a decision requiring the output decision directly AND through the service (as a function)
                     nums = [i["name"] for i in inputs if i["type"] == "number"]
-                    args = [("name", i) if i in [x["name"] for x in inputs] else ("num", "1") for i in needed_inputs] + [("num", r.choice(NUMS)) for _ in input_decisions]
+                    args = [("name", i) if i in [x["name"] for x in inputs] else ("num", "1") for i in needed_inputs] + [(("num", r.choice(NUMS)) if result_type.get(x) == "number" else ("str", r.choice(STRS))) for x in input_decisions]
                     d = {"name": "De%d" % (len(decs) + 1), "kind": "literal", "requires_inputs": [i["name"] for i in inputs], "requires_decisions": [out[0]], "requires_bkms": [], "requires_services": [s["name"]],
                          "expr": ("list", [("name", out[0]), ("call", ("name", s["name"]), args)])}
                     m["decisions"].append(d)
                     result_type[d["name"]] = "list"
+        return m
+
+    def _typed_service_model(self, m):
+        """typed decisions feeding a TYPED decision service through input decisions of OTHER types; the service is invoked by
+        name and as a function (positionally and by name) with typed arguments"""
+        r = self.rng
+        m["inputs"] = [{"name": "In1", "type": "number"}, {"name": "In2", "type": "string"}, {"name": "In3", "type": "number"}]
+
+        def dec(name, expr, ty, req_in, req_dec, req_svc=()):
+            d = {"name": name, "kind": "literal", "expr": expr, "requires_inputs": list(req_in), "requires_decisions": list(req_dec), "requires_bkms": [], "requires_services": list(req_svc)}
+            if ty:
+                d["type_ref"] = ty
+            m["decisions"].append(d)
+            return d
+
+        word = r.choice(STRS)
+        dec("De1", ("add", ("name", "In2"), ("str", r.choice(STRS))), "string", ["In2"], [])
+        dec("De2", self.num_expr(["In1", "In3"], 2), "number", ["In1", "In3"], [])
+        out_ty = r.choice(["number", "string"])
+        if out_ty == "number":
+            out_expr = ("if", ("cmp", "=", ("name", "De1"), ("str", word)), ("name", "De2"), ("add", ("name", "De2"), ("name", "In3")))
+        else:
+            out_expr = ("add", ("name", "De1"), ("if", ("cmp", ">", ("name", "De2"), ("num", "1")), ("str", "big"), ("str", "small")))
+        dec("De3", out_expr, out_ty, ["In3"], ["De1", "De2"])
+        ins = r.choice([["De1"], ["De2"], ["De1", "De2"]])
+        enc = [x for x in ("De1", "De2") if x not in ins]
+        needed = sorted({i for x in ["De3"] + enc for i in self._dec(m, x)["requires_inputs"]})
+        sv = {"name": "Sv1", "inputs": needed, "input_decisions": ins, "encapsulated": enc, "outputs": ["De3"], "type_ref": out_ty}
+        m["services"].append(sv)
+        # arguments: input data by name, input decisions by typed literals
+        def arg(x):
+            return ("num", r.choice(NUMS)) if x == "De2" else ("str", r.choice(STRS + [word]))
+        pos = [("name", i) for i in needed] + [arg(x) for x in ins]
+        named = [(i, ("name", i)) for i in needed] + [(x, arg(x)) for x in ins]
+        r.shuffle(named)
+        dec("De4", ("list", [("name", "De3"), ("call", ("name", "Sv1"), pos), ("callnamed", ("name", "Sv1"), named)]), None, ["In1", "In2", "In3"], ["De3"], ["Sv1"])
+        m["result_type"] = {"De1": "string", "De2": "number", "De3": out_ty, "De4": "list"}
         return m
 
     def table(self, src):
@@ -326,7 +370,7 @@ def to_xml(m):
             p.append(_table_xml(b["table"]))
         p.append("</encapsulatedLogic></businessKnowledgeModel>")
     for d in m["decisions"]:
-        p.append('<decision name="%s" id="_%s"><variable name="%s"/>' % (d["name"], d["name"], d["name"]))
+        p.append('<decision name="%s" id="_%s"><variable name="%s"%s/>' % (d["name"], d["name"], d["name"], (' typeRef="%s"' % d["type_ref"]) if d.get("type_ref") else ""))
         for x in d["requires_inputs"]:
             p.append('<informationRequirement><requiredInput href="#_%s"/></informationRequirement>' % x)
         for x in d["requires_decisions"]:
@@ -359,7 +403,7 @@ def to_xml(m):
                 p.append(_lit(("fundef", d["params"], d["body"])))
         p.append("</decision>")
     for s in m["services"]:
-        p.append('<decisionService name="%s" id="_%s"><variable name="%s"/>' % (s["name"], s["name"], s["name"]))
+        p.append('<decisionService name="%s" id="_%s"><variable name="%s"%s/>' % (s["name"], s["name"], s["name"], (' typeRef="%s"' % s["type_ref"]) if s.get("type_ref") else ""))
         for x in s["outputs"]:
             p.append('<outputDecision href="#_%s"/>' % x)
         for x in s["encapsulated"]:
@@ -404,6 +448,12 @@ class Ref:
     def __init__(self, m):
         self.m = m
         self.bkm_fn = {}
+
+    def _dec_type(self, name):
+        for d in self.m["decisions"]:
+            if d["name"] == name:
+                return d.get("type_ref")
+        return None
 
     def coerce_input(self, ty, v):
         if v is None:
@@ -510,6 +560,8 @@ class Ref:
         return rfeel.Fn(params, ("__service__", s, self), [])
 
     def service(self, s, inputs, supplied):
+        # a value supplied for an input decision is a typed parameter when that decision's variable is typed
+        supplied = {x: self.coerce_input(self._dec_type(x), v) for x, v in (supplied or {}).items()}
         memo = {}
         outs = [self.decision(o, inputs, memo, supplied) for o in s["outputs"]]
         if len(outs) == 1:
@@ -540,6 +592,19 @@ def _names(e):
         for x in e:
             out |= _names(x)
     return out
+
+
+def _calls_in(e):
+    """true when the expression invokes something that is not one of the numeric built-ins (its result kind is then not known)"""
+    if isinstance(e, tuple):
+        if e and e[0] == "call" and not (e[1][0] == "name" and e[1][1] in BUILTINS):
+            return True
+        if e and e[0] == "path":
+            return True
+        return any(_calls_in(x) for x in e[1:])
+    if isinstance(e, list):
+        return any(_calls_in(x) for x in e)
+    return False
 
 
 BUILTINS = ("abs", "floor", "max", "min", "sum", "count")
